@@ -526,7 +526,7 @@ func (pr *vfProxyRun) sinks(lport int) {
 		{"10.0.1.1", 5070}, {"10.0.1.1", 5060}, {"10.0.1.2", 5060}, {"10.0.1.3", 5060}, {"10.0.1.3", 5061},
 		{"10.0.1.4", 6001}, {"10.0.1.5", 5060}, {"10.0.1.6", 5060}, {"10.0.1.7", 5080},
 		{"10.0.2.1", 5062}, {"10.0.2.1", 5060}, {"10.0.2.1", 5061}, {"10.0.2.1", 7777}, {"10.0.2.2", 5060}, {"10.0.2.2", 5064},
-		{"10.0.2.3", 5062}, {"10.0.2.3", 7777}, {"10.0.2.3", 5060}, {"10.0.2.9", 5062}, {"10.0.2.9", 5060}, {"10.0.5.5", 40000}, {"10.0.5.5", 5062},
+		{"10.0.2.3", 5062}, {"10.0.2.3", 7777}, {"10.0.2.3", 5060}, {"10.0.2.9", 5062}, {"10.0.2.9", 5060}, {"10.0.5.5", 24000}, {"10.0.5.5", 5062},
 	} {
 		vfAllSinks.get(pr.t, g.ip(sp[0].(string)), sp[1].(int))
 	}
@@ -824,7 +824,7 @@ func TestVfProxy(t *testing.T) {
 			pr.learnSteps(id, b, &rc)
 			cls := fmt.Sprintf("route=%s to=%s ruri=%s keep=%v lport=%d learn=%s pool=%s order=%s rvia=%s", strings.Join(rc.Route, "+"), rc.Rc.To, rc.Rc.Ruri, rc.Rc.Keep, rc.Rc.Lport, rc.Rc.Learn, rc.Rc.Pool, rc.Rc.Order, rc.Rc.Rvia)
 			if rc.Rc.Kind == "req" {
-				pr.step(id, cls, b, 0, 0, pr.g.ip("10.0.5.5"), 40000, pr.g.request(&rc))
+				pr.step(id, cls, b, 0, 0, pr.g.ip("10.0.5.5"), 24000, pr.g.request(&rc))
 			} else {
 				// a response arrives from a backend address or from a next hop that is no backend (the peer of a request
 				// relayed by Route / static route): the repetitions of a recipe alternate between the two
@@ -866,7 +866,7 @@ func TestVfProxy(t *testing.T) {
 				pr.learnSteps(id, b, rc)
 				cls := fmt.Sprintf("history step=%d route=%s to=%s ruri=%s learn=%s order=%s rvia=%s", j, strings.Join(rc.Route, "+"), rc.Rc.To, rc.Rc.Ruri, rc.Rc.Learn, rc.Rc.Order, rc.Rc.Rvia)
 				if rc.Rc.Kind == "req" {
-					pr.step(id, cls, b, 0, 0, pr.g.ip("10.0.5.5"), 40000, pr.g.request(rc))
+					pr.step(id, cls, b, 0, 0, pr.g.ip("10.0.5.5"), 24000, pr.g.request(rc))
 				} else {
 					sip, sport := pr.respSrc(pr.g.rnd.Intn(2))
 					pr.step(id, cls, b, 0, 0, sip, sport, pr.g.response(rc))
@@ -906,7 +906,7 @@ func TestVfProxy(t *testing.T) {
 			return m
 		}
 		before := count()
-		pr.step(id, "fault-history initial INVITE", b, 0, 0, g.ip("10.0.5.5"), 40000, mkreq("INVITE", 1, "", false))
+		pr.step(id, "fault-history initial INVITE", b, 0, 0, g.ip("10.0.5.5"), 24000, mkreq("INVITE", 1, "", false))
 		holder := ""
 		for a, n := range count() {
 			if n > before[a] {
@@ -931,12 +931,12 @@ func TestVfProxy(t *testing.T) {
 		hport := 0
 		fmt.Sscanf(holder[i+1:], "%d", &hport)
 		pr.step(id, "fault-history answered 200", b, 0, 0, holder[:i], hport, vfRender("SIP/2.0 200 OK", hs, nil))
-		pr.step(id, "fault-history ACK while the backend is up", b, 0, 0, g.ip("10.0.5.5"), 40000, mkreq("ACK", 1, totag, false))
+		pr.step(id, "fault-history ACK while the backend is up", b, 0, 0, g.ip("10.0.5.5"), 24000, mkreq("ACK", 1, totag, false))
 		hd.mu.Lock()
 		hd.fail = true
 		hd.mu.Unlock()
 		for n, m := range []string{"INFO", "UPDATE", "INVITE", "BYE"} {
-			pr.step(id, "fault-history in-dialog "+m+" while the dialog's backend is unreachable", b, 0, 0, g.ip("10.0.5.5"), 40000, mkreq(m, 2+n, totag, n%2 == 1))
+			pr.step(id, "fault-history in-dialog "+m+" while the dialog's backend is unreachable", b, 0, 0, g.ip("10.0.5.5"), 24000, mkreq(m, 2+n, totag, n%2 == 1))
 		}
 		hd.mu.Lock()
 		hd.fail = false
@@ -1117,7 +1117,7 @@ func TestVfConcurrentRelay(t *testing.T) {
 		feed := func(pi int, ins [][]byte) {
 			defer wg.Done()
 			for _, raw := range ins {
-				b.proxies[pi].HandleRawMessage(NewRawMessage(g.ip("10.0.5.5"), 40000+pi, b.trans[pi][0], true, parse(raw)))
+				b.proxies[pi].HandleRawMessage(NewRawMessage(g.ip("10.0.5.5"), 24000+pi, b.trans[pi][0], true, parse(raw)))
 			}
 		}
 		wg.Add(2)
@@ -1147,7 +1147,7 @@ func TestVfConcurrentRelay(t *testing.T) {
 				}
 			}
 			tr.Emit(vfM{"ev": "step", "case": id, "cls": cls, "pi": pi + 1, "lid": fmt.Sprintf("p%d.t1", pi+1),
-				"src": vfM{"ip": g.ip("10.0.5.5"), "port": 40000 + pi}, "inmsg": in, "outs": outs, "pool": []string{}, "rx": vfM{"sip": false, "abs": false}, "tohost": vfChars(tohost),
+				"src": vfM{"ip": g.ip("10.0.5.5"), "port": 24000 + pi}, "inmsg": in, "outs": outs, "pool": []string{}, "rx": vfM{"sip": false, "abs": false}, "tohost": vfChars(tohost),
 				"resolv": pr.resolv(b, oms...), "panic": "", "stuck": stuck, "learned_obs": vfM{}})
 		}
 		for k, raw := range in1 {
